@@ -14,10 +14,11 @@ CLAIMS = {'C01': {'note': 'Not decided (SQL): the upsert input=input+excluded.in
  'C03': {'note': "Assumed: UpdateVolumes ... RETURNING gives the stored post-state for every updated (account, asset). 'Never change afterwards' is a storage fact. "
                  'Moves.ComputePostCommitEffectiveVolumes and the effective-volume triggers are not covered (C04 n/a).',
          'ref': 'DESIGN.md §4 C03',
-         'text': 'Proved on Store.CommitTransaction for every posting list: tx.PostCommitVolumes is a deep copy of what UpdateVolumes returned, taken before the unwinding mutates the map (an '
-                 'alias-mutation obligation fails if the copy is dropped); with MOVES_HISTORY on, the unwinding loop visits the postings in reverse order and records, for posting i, a source move '
-                 'and a destination move whose post-commit volumes are the final volumes minus the (credits, debits) of the later postings (loop invariant over the reversed list, unbounded '
-                 'integers); 2 moves per posting, inserted once. PostCommitVolumes.AddInput/AddOutput/Copy/SubtractPostings have exact per-entry contracts with frames.'},
+         'text': 'Proved on Store.CommitTransaction for every posting list, as POSTCONDITIONS (not only loop invariants): tx.PostCommitVolumes is a deep copy of what UpdateVolumes returned, taken '
+                 'before the unwinding mutates the map (an alias-mutation obligation fails if the copy is dropped); with MOVES_HISTORY on exactly 2 moves per posting are inserted, once, in the order '
+                 'source move then destination move of posting 0, 1, ...; the source move of posting i carries the running volumes of (source, asset) after the first i postings were credited and the '
+                 'first i+1 debited, the destination move the running volumes of (destination, asset) after the first i+1 postings, where running = final volumes minus the (credits, debits) of the '
+                 'later postings (spec functions runIn / runOut, unbounded integers). PostCommitVolumes.AddInput/AddOutput/Copy/SubtractPostings have exact per-entry contracts with frames.'},
  'C06': {'note': 'Not decided (outside this technique): row locks / SELECT FOR UPDATE, READ COMMITTED interleavings, the insert-zero-row trick - every concurrent schedule. Assumed contract: '
                  'Store.GetBalances returns exactly the requested pairs with non-nil values; Store.RevertTransaction returns well-formed postings. Machine.tick / compiler not covered here.',
          'ref': 'DESIGN.md §4 C06',
@@ -39,14 +40,17 @@ CLAIMS = {'C01': {'note': 'Not decided (SQL): the upsert input=input+excluded.in
          'text': 'Go half, proved for every path of forgeLog / forgeLogRetry / runTx / runLog (retry loop included) over the Store typestate model: a successful non-dry-run write that is not an '
                  'idempotency hit commits exactly one SQL transaction containing exactly one InsertLog and one run of the operation (committedLogs + 1); an error, a dry run or an idempotency hit '
                  "commits no log; runLog inserts at most one log, on the handle it was given, carrying the request's idempotency key, hash and schema version; the functions run inside forgeLog never "
-                 'call InsertLog (their write frame is the store they were given, and InsertLog is only reachable from runLog and importLog).'},
+                 'call InsertLog (their write frame is the store they were given, and InsertLog is only reachable from runLog and importLog). DefaultController.Import is under contract: with '
+                 'maxLogID the largest log id present (ghost, read from the first row of the logs listing), every imported log is handed to InsertLog with an id strictly greater than maxLogID, in '
+                 'its own store transaction that is committed or rolled back; a stream whose ids do not strictly increase is refused. NewLog produces a log without id (the database assigns it).'},
  'C13': {'note': 'Not decided: two concurrent sessions with the same key (unique index + READ COMMITTED). Assumed: an InsertLog failing with an idempotency-key conflict implies a committed log with '
                  "that key is readable (the panic in forgeLogRetry is assumed unreachable on that ground); type assertion of the stored payload to the operation's output type succeeds; "
                  'ComputeIdempotencyHash is a function of its input.',
          'ref': 'DESIGN.md §4 C13',
          'text': 'Sequential half of idempotency, proved on forgeLog/forgeLogRetry/fetchLogWithIK/runLog: an idempotency hit or a hash mismatch runs no fn and commits nothing; a write commits at '
                  "most once per call also across the retry loop; the retry never reuses a closed transaction handle; the stored log carries the request's key; revert's metadata helper does not "
-                 'mutate the request input that is hashed afterwards.'},
+                 "mutate the request input that is hashed afterwards. An idempotency hit (from fetchLogWithIK, forgeLog and the retry path forgeLogRetry alike) carries a log with the request's key "
+                 'whose stored hash is empty (legacy) or equals the hash of the request input; a different hash is an error.'},
  'C15': {'note': 'Assumed: Store.RevertTransaction returns modified=false for an already reverted transaction (conditional UPDATE; raced behaviour is a database property); metadata.Metadata.Merge '
                  'lets its argument override (go-libs, mergo). Not covered: that balances return to their previous values in SQL.',
          'ref': 'DESIGN.md §4 C15',
@@ -71,10 +75,11 @@ CLAIMS = {'C01': {'note': 'Not decided (SQL): the upsert input=input+excluded.in
                  'and exactly the WHERE operator of the four (order, direction) cases; columnPaginator.BuildCursor returns min(len, pageSize) rows (reversed back on reverse pages), HasMore iff the '
                  'extra row came back, next/previous cursors carrying the pagination id of the right row (index obligations included) and the bottom id; OffsetPaginator.Paginate/BuildCursor likewise '
                  'with offset arithmetic (overflow and MaxInt32 guards).'},
- 'C22': {'note': 'Trusted about compiler output (listed in the tick contract as requires): the typed stack discipline (every pop finds a value of the demanded type; assumed contract of '
-                 'pop/popValue), OP_APUSH operand bytes, OP_BUMP / MAKE_ALLOTMENT / FUNDING_ASSEMBLE counts within the stack, OP_TAKE_ALWAYS / OP_SAVE / OP_ALLOC amounts >= 0, OP_ALLOC allotment '
-                 "sums to 1. Not proved: the compile scheme (ANTLR visitors) that turns a send statement into TAKE ... SEND, Machine.Execute's loop (goroutine + defer; the induction over ticks is "
-                 "the standard invariant argument, DESIGN Appendix B), NewAllotment (assumed). Concat overwrites the receiver's last part in place (value semantics for slices assumed at call sites).",
+ 'C22': {'note': 'Trusted about compiler output (listed in the tick contract as requires): the typed stack discipline, spelled out per opcode as `requires` of tick (stackShape(op): which types the '
+                 "top of the stack holds); pop's 5-line generic body is assumed GIVEN that precondition, popValue is verified, OP_APUSH operand bytes, OP_BUMP / MAKE_ALLOTMENT / FUNDING_ASSEMBLE "
+                 'counts within the stack, OP_TAKE_ALWAYS / OP_SAVE / OP_ALLOC amounts >= 0, OP_ALLOC allotment sums to 1. Not proved: the compile scheme (ANTLR visitors) that turns a send statement '
+                 "into TAKE ... SEND, Machine.Execute's loop (goroutine + defer; the induction over ticks is the standard invariant argument, DESIGN Appendix B), NewAllotment (assumed). Concat "
+                 "overwrites the receiver's last part in place (value semantics for slices assumed at call sites).",
          'ref': 'DESIGN.md §4 C22',
          'text': 'VM level, for every bytecode program (a superset of compiled scripts): Machine.tick is verified opcode by opcode (90 paths) against a step contract. With R(a,x) = credits - debits '
                  'of the emitted postings minus the funds still in flight on the stack, every successful step keeps all stack fundings and posting amounts non-negative and non-nil, appends postings '
@@ -97,7 +102,8 @@ CLAIMS = {'C01': {'note': 'Not decided (SQL): the upsert input=input+excluded.in
          'ref': 'DESIGN.md §4 C24',
          'text': 'Allotment.Allocate is proved, for every non-negative amount (unbounded integer) and every portion vector with positive denominators summing to 1, to return parts that sum exactly '
                  'to the amount, each equal to the floor share plus one unit for the earliest L parts where L is the leftover (0 <= L < number of parts). Loop invariants incl. the nonlinear floor '
-                 'sandwich are discharged by SMT.'},
+                 'sandwich are discharged by SMT. NewAllotment is verified (it was assumed): the result has positive denominators and non-negative numerators, sums to at most 1, to exactly 1 when a '
+                 '`remaining` portion is present, two `remaining` are refused, and every specific portion is copied unchanged.'},
  'C27': {'note': "NOT covered: Machine.ResolveResources / ResolveBalances / Execute's loop and the ANTLR-generated compiler (arbitrary bytes -> program); the typed-stack operand conditions of tick "
                  "are trusted about compiler output; OP_PRINT's channel send is dropped; regular expressions are uninterpreted predicates; regexp.FindStringSubmatch group counts are assumed.",
          'ref': 'DESIGN.md §4 C27',
@@ -121,7 +127,9 @@ CLAIMS = {'C01': {'note': 'Not decided (SQL): the upsert input=input+excluded.in
                  'operation or inserting a log, while audit mode runs it; a log failing ValidateWithSchema is not inserted in strict mode. createTransaction - on a schema with templates a '
                  'template-less request is rejected in strict mode, an unknown template is rejected, a template on a schema without templates is rejected, all before any store write; the committed '
                  "transaction carries the template name. CreatedTransaction.ValidateWithSchema returns nil iff every posting's source and destination are accepted by the chart (loop invariant, any "
-                 'number of postings); ChartOfAccounts.ValidatePosting likewise; ChartAccount.DefaultMetadata returns exactly the keys with a default and their values.'},
+                 'number of postings); ChartOfAccounts.ValidatePosting likewise; ChartAccount.DefaultMetadata returns exactly the keys with a default and their values. saveAccountMetadata hands '
+                 "UpsertAccounts exactly the request's metadata as Metadata and the chart defaults only as DefaultMetadata (applied by the store on first insert; never merged over existing values). "
+                 'findAccountSchema (the recursive chart matcher) cannot panic for any chart and address and returns an account iff it returns no error.'},
  'C31': {'note': 'Assumed: the underlying Controller publishes nothing itself; Controller.LockLedger on a transactional handle stays in that transaction. The parent chain is modelled read-only '
                  '(queueing on the parent is not written back: no heap model). Not covered: internal/bus (the listener turning callbacks into messages - seeded change C31-3 is missed), '
                  'controllerFacade.handleState, atomic bulk (C32).',
@@ -129,7 +137,8 @@ CLAIMS = {'C01': {'note': 'Not decided (SQL): the upsert input=input+excluded.in
          'text': 'Proved on ControllerWithEvents: handleEvent never invokes a callback while hasTx; the seven write wrappers hand exactly one callback to handleEvent iff the underlying call returned '
                  'nil and the request is not a dry run; Commit invokes the queued callbacks only after the underlying Commit returned nil and returns nil iff it did; Rollback drops them; BeginTX '
                  "yields hasTx=true and LockLedger inherits hasTx (finding F2, fixed). Together with C07's forgeLog contract (nil only after commit) no event precedes or lacks its commit on these "
-                 'paths.'},
+                 'paths. controllerFacade.handleState (first write on an initializing ledger): the write runs on the locked child of the BeginTX controller, the BeginTX controller — the one holding '
+                 'the queued events — is the one committed, nothing is committed on error or dry run, and the ledger is marked in-use only after that commit succeeded.'},
  'C32': {'note': 'Assumed (outside the subset: goroutines, select, channels, worker pool): Bulker.run runs elements on the controller it is given, reports hasError iff an element failed, and stops '
                  'after the first failure unless continueOnFailure; FIFO order of a one-worker pool; UnmarshalBulkElementPayload yields the payload type matching the action (precondition of '
                  'processElement).',
@@ -137,7 +146,8 @@ CLAIMS = {'C01': {'note': 'Not decided (SQL): the upsert input=input+excluded.in
          'text': 'Proved on Bulker.Run for all options: atomic+parallel is rejected before anything runs; a non-atomic bulk never begins, commits or rolls back a controller transaction and runs on '
                  "the bulker's controller; an atomic bulk runs on the controller returned by BeginTX, rolls back exactly once and never commits when an element failed, and attempts exactly one "
                  "commit (error propagated) otherwise. processElement is proved to issue at most one controller write per element, exactly one on success, on the given controller, with the element's "
-                 "idempotency key, the bulk's schema version and DryRun=false, and never to panic for a decoded element."},
+                 "idempotency key, the bulk's schema version and DryRun=false, and never to panic for a decoded element. An element that is processed reports an error iff it sets the bulk's error "
+                 'flag (so `run` reports a failure for every failed element, with or without continueOnFailure).'},
  'C35': {'note': 'Not decided: that the transactions, logs, balances and metadata produced by a history are identical across the 48 combinations (which triggers default_bucket.go installs, and SQL); '
                  'the HASH_LOGS branch of InsertLog; accounts Expand(volumes) without PIT is refused although it would not need the moves table (over-strict, not a wrong answer). Assumed: the bun '
                  'builder contracts of C17; regexp.MatchString/FindAllStringSubmatch shape facts.',
@@ -161,7 +171,9 @@ CLAIMS = {'C01': {'note': 'Not decided (SQL): the upsert input=input+excluded.in
          'ref': 'DESIGN.md §4 C38',
          'text': 'Panic-freedom of request-decoding paths, for all inputs: v1 Script.ToCore (F6 fixed), ScriptV1.ToCore, TransactionRequest.ToCore, Postings.Validate, TxToScriptData, '
                  'Bulker.processElement, LogType / SavedMetadata / DeletedMetadata UnmarshalJSON (F9, F10 fixed) and importLog (F11 fixed: nil ids, unchecked type assertions on imported logs, which '
-                 'run in a goroutine outside the recover middleware).'}}
+                 'run in a goroutine outside the recover middleware). Also: the bulk script-stream parser ParseTextStream (runs in its own goroutine; two panics found and fixed, F19), the filter '
+                 'value validators TypeString/TypeBoolean.ValidateValue (a validated value has the type the storage handlers assert), the accounts and transactions ResolveFilter handlers (no failing '
+                 'type assertion or index on validated filters), accounts.ValidateAddress / assets.IsValid.'}}
 
 NA = {'C04': 'Effective volumes are computed by the PL/pgSQL triggers set_effective_volumes / update_effective_volumes; no Go function computes them, so no contract on the Go code can state or decide the '
         'property.',
